@@ -10,6 +10,8 @@ CFG = "cli/src/import/config.rs"
 SORT_PROOF = lambda model, view, mapexpr, le: (
     "let ghost pre__ = {v}; {m}; proof {{ det::lemma_sorted_perm_canonical(pre__, {v}, {mp}, {le}); }}"
     .format(v=view, m=model, mp=mapexpr, le=le))
+# `V.sort_unstable_by_key(|(K, _)| K.as_str());` with V and K taken from the code (group 1 = V)
+SORT_BY_NAME_RX = r"re:\b(\w+)\.sort_unstable_by_key\(\|\((\w+), _\)\| \2\.as_str\(\)\);"
 
 GROUP = {
     "name": "determinism",
@@ -27,8 +29,8 @@ GROUP = {
         U("Amount::sorted_values", AM, [r"impl<'ctx> Amount<'ctx>", r"fn sorted_values\b"], fn="sorted_values", wrap=("impl Amount {", "}"),
           rewrites=[("R0", "ret_"),
                     ("R24-hashmap-collect", "self.values.iter().collect()", "hashmap_entries(&self.values)", 1),
-                    ("R24-sort-by-name", "vs.sort_unstable_by_key(|(c, _)| c.as_str());",
-                     SORT_PROOF("sort_unstable_by_commodity_name(&mut vs)", "refs_view(vs@)", "self.values@", "commodity_le()"), "opt")],
+                    ("R24-sort-by-name", SORT_BY_NAME_RX,
+                     SORT_PROOF("sort_unstable_by_commodity_name(&mut \\1)", "refs_view(\\1@)", "self.values@", "commodity_le()"), "opt")],
           contract="""
         ensures
             // C13: the commodities of an amount are listed in an order that depends on the amount alone
@@ -43,8 +45,8 @@ GROUP = {
         U("Balance::into_vec", BA, [r"impl<'ctx> Balance<'ctx>", r"pub fn into_vec\b"], fn="into_vec", wrap=("impl Balance {", "}"),
           rewrites=[("R0", "ret_"),
                     ("R24-hashmap-collect", "self.accounts.into_iter().collect()", "hashmap_into_entries(self.accounts)", 1),
-                    ("R24-sort-by-name", "ret.sort_unstable_by_key(|(a, _)| a.as_str());",
-                     SORT_PROOF("sort_unstable_by_account_name(&mut ret)", "ret@", "self.accounts@", "account_le()"), "opt")],
+                    ("R24-sort-by-name", SORT_BY_NAME_RX,
+                     SORT_PROOF("sort_unstable_by_account_name(&mut \\1)", "\\1@", "self.accounts@", "account_le()"), "opt")],
           contract="""
         ensures det::is_canonical(ret_@, self.accounts@, account_le()),   // @Balance.into_vec.order_is_function_of_the_balance
 """),
@@ -52,7 +54,7 @@ GROUP = {
         U("anchor:Balance::iter is accounts.iter()", BA, [r"impl<'ctx> Balance<'ctx>", r"pub\(crate\) fn iter\b"], no_canary=True,
           slice=r"(self\.accounts\.iter\(\))", slice_count=1, slice_template="/* anchor: {EXPR} */\n"),
         U("callsite:Ledger::balance.conversion_order", QU, [r"impl<'ctx> Ledger<'ctx>", r"pub fn balance\b"], fn="conversion_account_order", no_canary=True,
-          slice=r"(let mut accounts: Vec<[^;]*;\s*(?:accounts\.sort_unstable_by_key\([^;]*;)?)\s*for \(account, original_amount\) in accounts", slice_count=1,
+          slice=r"(let mut accounts: Vec<[^;]*;\s*(?:accounts\.sort_unstable_by_key\([^;]*;)?)", slice_count=1,
           slice_template="""fn conversion_account_order<'a>(balance: &'a Balance) -> (accounts: Vec<(&'a Account, &'a Amount)>)
     ensures
         // C13: accounts are converted (and the first missing rate reported) in an order that depends on the balance alone
@@ -64,6 +66,8 @@ GROUP = {
           rewrites=[("R24-hashmap-collect", "balance.iter().collect()", "hashmap_entries(&balance.accounts)", 1),
                     ("R24-sort-by-name", "accounts.sort_unstable_by_key(|(a, _)| a.as_str());",
                      SORT_PROOF("sort_unstable_by_account_name_refs(&mut accounts)", "refs_view(accounts@)", "balance.accounts@", "account_le()"), "opt")]),
+        U("anchor:the conversion loop walks that listing", QU, [r"impl<'ctx> Ledger<'ctx>", r"pub fn balance\b"], no_canary=True,
+          slice=r"(for \(account, original_amount\) in accounts \{)", slice_count=1, slice_template="/* anchor: {EXPR} */\n"),
         # ---- compute_price_table: the order in which the neighbours of a commodity are visited decides which of two equally
         #      distant rates is kept (`balance -X`, `eval -X`)
         ("raw", "#[verifier::external_body]\npub struct Entry { _p: usize }   // stand-in for price_db::Entry (never looked inside)\n"),
